@@ -27,6 +27,10 @@ CHECKS = {
                 tech="TLC trace validation of branch/jump placements against Assembler.tla + AvrIsa (Rel7/Rel12 legality and encoding)",
                 text="Forward and backward <branch, filler, target> programs for all 34 branch forms and rjmp/rcall at every boundary distance and every distance -70..70, with seven filler mixes (one- and two-word instructions, odd .db, .dw, .org gaps) and targets named by label and by pc expression; TLC requires success iff the displacement fits and the exact image otherwise.",
                 note=TB),
+    "C05": dict(level="model_checking", ref="3 C05",
+                tech="TLC trace validation of .dq <expr> evaluations against Expr!Eval on exact integers; MC_Expr parse/render theorems",
+                text="18 binary operators on a 31x31 grid of boundary operands, unary operators and byte/word functions on the grid, all depth-2 operator shapes rendered with only the parentheses the table requires, leaves in six radices / as .equ symbols / as labels in three letter cases, and seeded random trees of depth 2-6 are evaluated by the real code; TLC accepts only the table's value (64-bit two's complement) or an error for zero divisors and overflow, and checks that the rendered tokens are the specification's rendering. MC_Expr proves Parse(Render(t)) = t and minimality of the parentheses for all trees up to depth 2 (thorough 3).",
+                note=TB + "; outcomes the operator table leaves open are accepted either way (shift counts outside 0..63, >> of negatives, exp2 outside 0..62, -2^63 % -1)"),
     "C06": dict(level="model_checking", ref="3 C06",
                 tech="TLC trace validation of data directives against Assembler!DataFrom on exact (limb) integers",
                 text="Element lists of length 0..5 over the boundary values of each width (both ends, signed/unsigned), symbols, labels and ten strings (empty, non-ASCII, containing ; , //) for .db/.dw/.dd/.dq in code, EEPROM and data segments followed by a second item, and .byte in each segment; TLC recomputes bytes, padding and errors.",
